@@ -415,6 +415,14 @@ bool Exec<Cfg>::run_real(Op const& op) {
 			if(eq != want || ne == want) fail("V-compare", "operator==/!= between two views disagrees with element-wise comparison");
 		});
 	} break;
+	case O_SAVE:
+		if constexpr(Cfg::serialization) handled = ser_save(op);
+		else handled = false;
+		break;
+	case O_LOAD:
+		if constexpr(Cfg::serialization) handled = ser_load(op);
+		else handled = false;
+		break;
 	default: return false;
 	}
 	return handled;
